@@ -47,6 +47,10 @@ def run(ck):
         k = rng.randint(2, 4 if q else 5)
         mk = lambda: [[rng.randint(1, 6) for _ in range(rng.randint(0, 2))] for _ in range(k)]
         extra.append({"c1": mk(), "c2": mk()})
+    for i in range(40 if q else 600):     # large, nearly equal sums (a relative tolerance merges different pairings there); totals stay below 2^31
+        B = rng.choice([10 ** 5, 10 ** 6, 10 ** 7, 25 * 10 ** 7])
+        k = rng.randint(2, 3)
+        extra.append({"c1": [[B + rng.randint(0, 9)] for _ in range(k)], "c2": [[rng.randint(0, 9)] if i % 2 else [B + rng.randint(0, 9)] for _ in range(k)]})
     tc += core.pmap(drive.run_comb, extra)
     traces = tb + tt + tc
     for t in tb:
